@@ -183,7 +183,11 @@ pub fn test_tool(case: &DictCase) -> TestResult {
     let (min, mout, csv, bad) = (dir.path("in.zst"), dir.path("out.zst"), dir.path("dict.csv"), dir.path("bad.csv"));
     std::fs::write(&min, util::zstd_encode(&model_bytes)).map_err(|e| e.to_string())?;
     let s = |p: &std::path::PathBuf| p.to_string_lossy().to_string();
-    // dump
+    // dump (half of the time over an existing, longer file - as a second dump to the same path is)
+    if spec.dict.len() % 2 == 0 {
+        util::prefill(&csv, spec.dict.len());
+        util::prefill(&mout, spec.dict.len() + 3);
+    }
     let r = util::run_tool("manipulate_model", &["--model-in".into(), s(&min), "--dump-dict".into(), s(&csv)], b"")?;
     ensure!(r.code == Some(0), "--dump-dict exits with {:?}: {}", r.code, r.stderr);
     // replace with the untouched dump
